@@ -439,6 +439,32 @@ class Run(object):
             shape = a['shape']
             pairs = dec_pairs(a.get('pairs', []))
             kw = dec_kw(a.get('kw', []))
+            if shape in ('chainmap-self', 'proxy-self') and name != 'update_extend':
+                # a mapping argument that reads through the multidict being updated (settings layered over the current
+                # ones; a read-only view of itself): every value is read before its key's pairs are replaced
+                import collections, types
+                last_now = m_last(L)
+                fk_now = m_first_keys(L)
+                if shape == 'chainmap-self':
+                    arg = collections.ChainMap(dict(pairs), d)
+                    stand_in = collections.ChainMap(dict(pairs), dict((k, last_now[k]) for k in fk_now))
+                    eff = [(k, stand_in[k]) for k in stand_in.keys()]
+                else:
+                    arg = types.MappingProxyType(d)
+                    eff = [(k, last_now[k]) for k in fk_now]
+                if name == 'update':
+                    expect(outcome(lambda: d.update(arg, **dict(kw))), ('ok', None), 'result[update]')
+                    self.L = m_update(L, 'dict', eff, kw)
+                else:
+                    before = d
+                    d |= arg
+                    if d is not before:
+                        self.fail('result[ior]', '|= rebound the name to a different object')
+                    self.d = d
+                    self.L = m_update(L, 'dict', eff, [])
+                if st is not None:
+                    st.count('updates_from_a_mapping_reading_through_self')
+                return
             if shape == 'gen-raises':
                 n = min(a.get('fail_after', 0), len(pairs))
                 arg = failing(pairs, n)
@@ -678,6 +704,8 @@ class Check(object):
         if kind in ('update', 'update_extend', 'ior'):
             shapes = ['list', 'tuple', 'iter', 'gen', 'dict', 'omd', 'minimal-mapping', 'dupkeys-mapping']
             shapes.append('self')
+            if kind != 'update_extend':
+                shapes += ['chainmap-self', 'proxy-self']
             shape = r.choice(shapes + (['gen-raises'] if r.random() < 0.5 else []))
             a = {'shape': shape}
             if shape != 'self':
